@@ -29,7 +29,7 @@ class OptimizerRunCase(Case):
     family = "exit-code/optimizer-step"
 
     def __init__(self, cid, *, R=2, P=1, script, filt=None, estimator="mean", rmin=1, pmin=1, maxf=None, raise_at=None,
-                 allow_nan=False, C=0, transforms=None):
+                 allow_nan=False, C=0, transforms=None, redirect=False, exc_class=None):
         """script: list of (functions?, gradients?, point index)"""
         self.id = cid
         self.R, self.P, self.script, self.filt, self.estimator = R, P, script, filt, estimator
@@ -61,6 +61,7 @@ class OptimizerRunCase(Case):
             con_filt=con_filt, x0=[0.25, -0.5], lower=-10.0, upper=10.0, context=self.transforms,
             extra={"optimizer": {"method": "symstub/x", "max_functions": 3 if maxf else None}})
         self.tname = transforms
+        self.redirect, self.exc_class = redirect, exc_class or EvaluatorError
         fam = "exit-code/optimizer-step"
         if filt:
             fam += "/" + filt
@@ -87,8 +88,12 @@ class OptimizerRunCase(Case):
         if inp["maxf"] is not None:
             inject(cfg.optimizer, max_functions=env.num(inp["maxf"]))
         rec = Recorder()
-        ev = FlagEvaluator(env, inp["flags"], C=self.C, raise_at=self.raise_at, exc=EvaluatorError)
+        ev = FlagEvaluator(env, inp["flags"], C=self.C, raise_at=self.raise_at, exc=self.exc_class)
         plan, _ = make_plan(ev, rec)
+        if self.redirect:  # optimizer output redirected to files (stdout/stderr of the algorithm)
+            import tempfile, pathlib
+            d = pathlib.Path(tempfile.mkdtemp(prefix="c14_"))
+            inject(cfg.optimizer, stdout=d / "out.txt", stderr=d / "err.txt")
         ens.set_samples(lambda s: env.const(self.design))
         pts = [np.array([0.25, -0.5]), np.array([0.5, 0.75]), np.array([-0.25, 0.0])]
         done = []
@@ -100,7 +105,12 @@ class OptimizerRunCase(Case):
 
         ens.set_script(script, allow_nan=self.allow_nan)
         step = plan.add_step("optimizer")
-        code = plan.run_step(step, config=cfg, transforms=self.transforms)
+        try:
+            code = plan.run_step(step, config=cfg, transforms=self.transforms)
+        finally:
+            if self.redirect:
+                import shutil
+                shutil.rmtree(d, ignore_errors=True)
         return {"code": code, "done": len(done), "events": rec.events, "calls": len(ev.calls)}
 
     # ---- reference semantics
@@ -139,7 +149,7 @@ class OptimizerRunCase(Case):
 
         n = len(self.script)
         if not oc.ok:
-            if isinstance(oc.exc, EvaluatorError):
+            if type(oc.exc) is self.exc_class:
                 # the evaluator's own exception must surface - and only when it was really called then
                 reach = self.reaches(inp, self.raise_at)
                 return [("evaluator_exception_propagates_only_when_raised", reach)]
@@ -284,6 +294,9 @@ def build_cases(tier):
     for j in range(3):
         add(script=S3, raise_at=j, maxf=(j == 2))
     add(script=S1, raise_at=1)
+    for j in range(2):   # the user's evaluator fails with an OS-level error while the optimizer's output is redirected
+        add(script=S3, raise_at=j, redirect=True, exc_class=FileNotFoundError)
+    add(script=S1, rmin=1, redirect=True)
     for filt in (None, "sort-objective", "cvar-objective"):
         for rmin in (0, 1, 2):
             add(EvaluatorStepCase, filt=filt, rmin=rmin)
